@@ -108,6 +108,11 @@ pub fn generate(a: &Args) {
     for name in NAMES.iter() {
         let hl = name.starts_with("HL");
         let rest = if hl { &name[2..] } else { name };
+        if build(name, matrix(&family[0].0, family[0].1)).is_none() {
+            // the documented name does not parse: nothing to fingerprint (the Name event reports it; TableOK fails on this entry too)
+            behave.push(json!({"str": name, "hl": hl, "rest": rest, "fp": "no decoder: the name does not parse"}));
+            continue;
+        }
         let mk = |rows: &[Vec<usize>], n: usize| build(name, matrix(rows, n)).expect("factory");
         let (fp, _) = fingerprint(mk(&family[0].0, family[0].1), &family, &mk);
         behave.push(json!({"str": name, "hl": hl, "rest": rest, "fp": fp}));
